@@ -12,7 +12,8 @@ namespace {
 struct Calib { bool on = false; std::vector<double> poly; bool has_origin = false; double origin = 0; };
 
 struct H {   // one history
-    Ctx &c; Rng &r; File f; Block b; DataArray a; ArrayModel m; Calib cal; uint64_t ord = 1; bool small_ints = false;
+    Ctx &c; Rng &r; File f; Block b; DataArray a, a1, a2;   // a = handle used by the next operation; a1/a2 independently obtained handles of the same array
+    ArrayModel m; Calib cal; uint64_t ord = 1; bool small_ints = false;
     std::string path; Compression file_comp; std::string tname;
     H(Ctx &cx) : c(cx), r(cx.rng) {}
     std::string K(const std::string &what) { return "C01/" + what + "/" + tname; }
@@ -199,13 +200,14 @@ struct H {   // one history
         bool ro_first = r.chance(0.5);
         c.op("close+reopen " + std::string(ro_first ? "RO-then-RW" : "RW") + " " + tname);
         std::string an = a.name(), bn = b.name();
+        a = a1 = a2 = nix::none;
         f.close();
         if (ro_first) {
             f = File::open(path, FileMode::ReadOnly); b = f.getBlock(bn); a = b.getDataArray(an);
             verify_all("reopen-readonly");
             f.close();
         }
-        f = File::open(path, FileMode::ReadWrite, "hdf5", file_comp); b = f.getBlock(bn); a = b.getDataArray(an);
+        f = File::open(path, FileMode::ReadWrite, "hdf5", file_comp); b = f.getBlock(bn); a1 = b.getDataArray(an); a2 = b.getDataArray(an); a = a1;
         verify_all("reopen-readwrite");
         // calibration survives too
         std::vector<double> pc = a.polynomCoefficients(); boost::optional<double> og = a.expansionOrigin();
@@ -226,11 +228,14 @@ struct H {   // one history
         c.fp(tname + "/r" + str(R) + "/c" + str((int)comp) + "/f" + str((int)file_comp) + (small_ints ? "/cal" : ""));
         c.count("type:" + tname); c.count("rank:" + str(R)); c.count("compression:" + str((int)comp) + "/file:" + str((int)file_comp));
         c.op("createDataArray " + tname + " rank" + str(R) + " | shape=" + vshow(shape) + " compression=" + str((int)comp));
-        a = b.createDataArray("arr", "t", dt, to_nd(shape), comp);
+        a1 = b.createDataArray("arr", "t", dt, to_nd(shape), comp); a2 = b.getDataArray("arr"); a = a1;
         m.init(dt, shape);
         verify_all("fresh-array-reads-zero");
         int nops = (int)r.range(10, 40);
         for (int i = 0; i < nops; i++) {
+            // operations alternate between two independently obtained handles of the same array
+            if (r.chance(0.15)) { c.op("getDataArray second-handle " + tname); a2 = r.chance(0.5) ? b.getDataArray("arr") : b.getDataArray(a1.id()); }
+            a = r.chance(0.3) ? a2 : a1;
             int k = (int)r.weighted({6, 5, 3, 3, 5, 3, small_ints ? 3 : 0, small_ints ? 4 : 0, 2, 2});
             c.fp(str(k));
             try {
